@@ -164,7 +164,9 @@ func (p *parser) parseBinaryExpr(left Node) Node {
 	if rightType := binaryExp.Right.Type(); binaryExp.Op == OP_PLUS && expType.Name == ARRAY && rightType != nil && rightType.Name == ARRAY {
 		binaryExp.T = concatType(expType, rightType) // array concatenation e.g. [] + [1 2]
 	}
-	p.validateBinaryType(binaryExp)
+	if !p.validateBinaryType(binaryExp) && binaryExp.T != nil {
+		binaryExp.T = binaryExp.T.infer() // after a type error nothing untyped is left to be converted
+	}
 	if p.isWSS() {
 		p.formatting.recordWSS(binaryExp)
 	}
@@ -350,12 +352,13 @@ func (p *parser) validateUnaryType(unaryExp *UnaryExpression) {
 	}
 }
 
-func (p *parser) validateBinaryType(binaryExp *BinaryExpression) {
+func (p *parser) validateBinaryType(binaryExp *BinaryExpression) bool {
+	errCount := len(p.errors)
 	tok := binaryExp.Token()
 	op := binaryExp.Op
 	if op == OP_ILLEGAL || op == OP_BANG {
 		p.appendErrorForToken("invalid binary operator", tok)
-		return
+		return false
 	}
 
 	leftType := binaryExp.Left.Type()
@@ -363,7 +366,7 @@ func (p *parser) validateBinaryType(binaryExp *BinaryExpression) {
 	if !(leftType.matches(rightType) || (leftType.Name == ARRAY && op == OP_ASTERISK)) {
 		msg := fmt.Sprintf("mismatched type for %s: %s, %s", op, leftType, rightType)
 		p.appendErrorForToken(msg, tok)
-		return
+		return false
 	}
 
 	switch op {
@@ -395,6 +398,7 @@ func (p *parser) validateBinaryType(binaryExp *BinaryExpression) {
 			p.appendErrorForToken(msg, tok)
 		}
 	}
+	return len(p.errors) == errCount
 }
 
 func (p *parser) parseLiteral() Node {
